@@ -47,7 +47,8 @@ def r081_082(ctx):
     r = A.run(EG + ".fit", cls_ctx=EG)
     fq = r.func
     loops = [e for e in r.events if e.kind == "loop" and e.func == fq]
-    main = [l for l in loops if contains(l.data["iter"], lambda s: s.op == "attr" and s.args[1] == "max_iter")]
+    main = [l for l in loops if l.data["iter"].op == "call" and l.data["iter"].args[0] is glob("builtins.range")
+            and contains(l.data["iter"], lambda s: s.op == "attr" and s.args[1] == "max_iter")]
     ctx.require(len(main) == 1, "anchor vanished: training loop over range(max_iter)")
     L = main[0]
     lid = L.data["lid"]
@@ -111,6 +112,9 @@ def r081_082(ctx):
                     items.append(b_.args[1])
                 else:
                     items.append(None)
+            if c is None and len(items) == 1 and items[0] is not None and items[0].op == "ite":
+                # one append of a value chosen by a conditional expression: the same two alternatives
+                c, items = items[0].args[0], [items[0].args[1], items[0].args[2]]
             out.append((c, items))
         return out
     ga, qa = appended(gvals), appended(qvals)
@@ -169,6 +173,12 @@ def r081_082(ctx):
         # gaps[t] is the smaller of the two candidate gaps, so a candidate below nu implies gaps[t] below nu
         for g in gitems:
             want.add(A.C.canon(mk("cmp", "<", g, A.at(b, "self.nu"))))
+        for v in gvals:
+            # the appended value itself, under whatever local name it has (gap_t = gap_EG if ... else gap_LP)
+            while v.op == "assume":
+                v = v.args[1]
+            if v.op == "listappend":
+                want.add(A.C.canon(mk("cmp", "<", v.args[1], A.at(b, "self.nu"))))
         ok = any(l in want for l in lits)
         ctx.ob("R08.1", fq, b.node, ok, "the early exit is taken only when gaps[t] < nu for the gap appended in this "
                "iteration" if ok else "an exit of the training loop is not guarded by gaps[t] < nu on this iteration's gap: "
@@ -273,7 +283,12 @@ def r083(ctx):
     ok = lam_eg.op == "call" and lam_eg.args[0].op == "attr" and lam_eg.args[0].args[1] == "mean" and dict(lam_eg.args[2]).get("axis") is const(1)
     ctx.ob("R08.3", fq, eg[0].node, ok, "lambda_EG is the running mean of the multiplier vectors", construct="lambda_EG")
     # Qsum counts the chosen predictor
-    inc = [e for e in body if e.kind == "store" and e.data.get("tkind") == "sub" and root_of(e.data["obj"]).op == "call"
+    def _qroot(o):
+        o = root_of(o)
+        if o.op == "attr" and o.args[1] in ("at", "loc"):
+            o = root_of(o.args[0])
+        return o
+    inc = [e for e in body if e.kind == "store" and e.data.get("tkind") == "sub" and _qroot(e.data["obj"]).op == "call"
            and e.data["key"] is mk("sub", bh[0].data["result"], const(1))]
     okq = any(A.C._as_rat(A.C.canon(e.data["value"])).num.terms.get((), 0) == 1 for e in inc)
     ctx.ob("R08.3", fq, inc[-1].node if inc else None, okq, "Qsum[h_idx] is incremented by 1 for the best response",
@@ -319,7 +334,7 @@ def r083(ctx):
     ok = arg(first, 0) is P["Q"] and arg(first, 1) is P["lambda_hat"]
     ctx.ob("R08.3", rv.func, first.node, ok, "L, L_high are evaluated at (Q, lambda_hat)", construct="eval_gap primary evaluation")
     gr = [e for e in rv.events if e.kind == "call" and e.data.get("constructs") == GAP]
-    okg = bool(gr) and tuple(gr[0].data["args"]) == tuple([mk("sub", first.data["result"], const(0)), mk("sub", first.data["result"], const(0)),
+    okg = bool(gr) and tuple(arg(gr[0], i_) for i_ in range(5)) == tuple([mk("sub", first.data["result"], const(0)), mk("sub", first.data["result"], const(0)),
                                                            mk("sub", first.data["result"], const(1)), mk("sub", first.data["result"], const(2)),
                                                            mk("sub", first.data["result"], const(3))])
     ctx.ob("R08.3", rv.func, gr[0].node if gr else None, okg, "the result starts as (L, L_low = L, L_high, gamma, error)",
@@ -336,6 +351,14 @@ def r083(ctx):
     low = [e for e in rv.events if e.kind == "store" and e.data.get("tkind") == "attr" and e.data["attr"] == "L_low" and e.loops]
     okm = bool(low) and bool(inner)
     for e in low:
+        v_ = e.data["value"]
+        if v_.op == "call" and v_.args[0] is glob("builtins.min") and len(v_.args[1]) == 2 and not v_.args[2] and inner:
+            # result.L_low = min(result.L_low, candidate): the running minimum written with min()
+            cand = mk("sub", inner[0].data["result"], const(0))
+            cur = [x for x in v_.args[1] if x is not cand]
+            okm = okm and len(cur) == 1 and any(x is cand for x in v_.args[1]) and cur[0].op == "loopvar" \
+                and not contains(cur[0], lambda s: s is cand) and len(pc_literals(e.pc)) == len(pc_literals(inner[0].pc))
+            continue
         lit = A3.C.canon(pc_literals(e.pc)[-1])
         new_v = A3.C.canon(e.data["value"])
         # canonical orientation is `<` / `<=` with the smaller side first: the new candidate must be on the small side
@@ -677,6 +700,15 @@ def r0811_setup(ctx):
         return (o.args[0], o.args[1]) if o.op == "attr" and o.args[1] in ("at", "loc", "iat", "iloc") else (o, None)
     ok = len(init) == 1 and const_value(init[0].data["value"]) == 0 and _series(init[0].data["obj"])[1] in (None, "at", "loc") and any(
         A2.C.canon(l) is A2.C.canon(A2.spec("k not in q.index", {"k": hidx, "q": _series(init[0].data["obj"])[0]})) for l in pc_literals(init[0].pc))
+    if not init:
+        # no separate initialisation: the increment reads the previous count with a default, q.get(k, 0) + 1
+        for e in body:
+            if e.kind == "store" and e.data.get("tkind") == "sub" and e.func == fq and e.data["key"] is hidx:
+                q = _series(e.data["obj"])[0]
+                forms = [A2.spec(f_, {"k": hidx, "q": q}) for f_ in ("q.get(k, 0.0) + 1.0", "q.get(k, default=0.0) + 1.0")]
+                if any(A2.eq(e.data["value"], f_) for f_ in forms):
+                    ok = True
+                    init = [e]
     ctx.ob("R08.11", fq, init[0].node if init else None, ok, "a predictor id seen for the first time starts with count 0",
            construct="Qsum initial count")
 
